@@ -636,6 +636,24 @@ func (fc *FuncCtx) ghostEvent(st *State, kind string, i int, n ast.Node) {
 
 // ghostSend counts the sends per global channel: ghost variable sends_<channel>.
 func (fc *FuncCtx) ghostSend(st *State, n *ast.SendStmt) {
+	// `opt countsends <Method>`: sends on the channel returned by a call of that method
+	if fc.contract != nil {
+		if ce, ok := unparen(n.Chan).(*ast.CallExpr); ok {
+			if se, ok := unparen(ce.Fun).(*ast.SelectorExpr); ok {
+				for _, want := range strings.Fields(fc.contract.Opts["countsends"]) {
+					if se.Sel.Name == want {
+						name := "sends_" + want
+						cur := st.ghost[name]
+						st.ghost[name] = mkMath("(+ " + cur.S + " 1)")
+						saved := fc.quiet
+						fc.quiet = true
+						st.ghost["lastsent_"+want] = fc.eval(st, n.Value)
+						fc.quiet = saved
+					}
+				}
+			}
+		}
+	}
 	if key := fc.globalKey(n.Chan); key != "" {
 		name := "sends_" + key[strings.LastIndex(key, ".")+1:]
 		cur, ok := st.ghost[name]
